@@ -137,7 +137,7 @@ def make_tu(u, tmp, shim, mutant=None):
                 ls.setdefault('props', ''.join('[%s]' % p for p in u['props']))
             loops[k] = ls
         d = {'loops': loops}
-        for k in ('entry', 'exit', 'nloops', 'inserts'):
+        for k in ('entry', 'exit', 'nloops', 'inserts', 'rewrites'):
             if k in fs:
                 d[k] = fs[k]
         spec['functions'][f] = d
@@ -361,6 +361,11 @@ def _run_unit(u, keep=False, mutant=None, timeout=None, verbose=False, trace=Fal
             sl = r.get('sourceLocation', {})
             o = {'id': r.get('property'), 'desc': r.get('description', ''), 'status': r.get('status'),
                  'file': sl.get('file', ''), 'line': sl.get('line', ''), 'function': sl.get('function', '')}
+            if o['status'] == 'FAILURE' and any(re.search(w, o['desc']) for w in u.get('waive', [])):
+                # an obligation about a C idiom that is not a listed property (stated verbatim in the unit's assumptions): recorded, not counted
+                o['status'] = 'WAIVED'
+                res.setdefault('waived', []).append(o['id'])
+                continue
             if o['status'] == 'FAILURE':
                 nfail += 1
                 if 'trace' in r:
